@@ -73,4 +73,68 @@ def extremesOK (k : Nat) : Bool :=
 set_option maxRecDepth 100000 in
 theorem extremes_ok : (List.range 64).all extremesOK = true := by decide +kernel
 
+/-- list versions of the DCT pair (cheap to evaluate in the kernel) -/
+def sum32L (src : List Nat) (u v : Nat) : List Nat → Int
+  | [] => 0
+  | i :: is => (((src.getD i 0 : Nat) : Int) - 128) * c32L u v i + sum32L src u v is
+
+def fdctL (src : List Nat) (k : Nat) : Int :=
+  toInt16 (fdctPost (alphas16 (k % 8) (k / 8)) (sum32L src (k % 8) (k / 8) (List.range 64)))
+
+def isum32L (coef : Nat → Int) (i : Nat) : List Nat → Int
+  | [] => 0
+  | k :: ks => coef k * (alphas16 (k % 8) (k / 8) * ((c32L (k % 8) (k / 8) i + 32768) / 65536)) + isum32L coef i ks
+
+def idctRawL (src : List Nat) (i : Nat) : Int :=
+  (isum32L (fdctL src) i (List.range 64) + 2147483648) / 4294967296
+
+theorem sum32_eq_L (src : Array Nat) (u v : Nat) (l : List Nat) :
+    sum32 (fun i => ((src.getD i 0 : Nat) : Int) - 128) u v l = sum32L src.toList u v l := by
+  induction l with
+  | nil => rfl
+  | cons i is ih =>
+    show (((src.getD i 0 : Nat) : Int) - 128) * c32 u v i + sum32 _ u v is = _
+    rw [ih, c32_eq, getD_toList]
+    rfl
+
+theorem isum32_eq_L (f g : Nat → Int) (i : Nat) (l : List Nat) (h : ∀ k ∈ l, f k = g k) :
+    isum32 f i l = isum32L g i l := by
+  induction l with
+  | nil => rfl
+  | cons k ks ih =>
+    simp only [isum32, isum32L, c32_eq]
+    rw [h k List.mem_cons_self, ih (fun k' hk' => h k' (List.mem_cons_of_mem _ hk'))]
+
+theorem forwardDCT_getD' (src : Array Nat) (k : Nat) (hk : k < 64) :
+    (forwardDCT src).getD k 0 = fdctL src.toList k := by
+  have h1 : (forwardDCT src).getD k 0 = toInt16 (fdctCoef src k) := by
+    simp [forwardDCT, Array.getD, hk]
+  rw [h1]
+  unfold fdctCoef fdctL
+  simp only
+  rw [sum32_eq_L]
+
+theorem idctRaw_eq_L (src : Array Nat) (i : Nat) :
+    idctRaw (forwardDCT src) i = idctRawL src.toList i := by
+  unfold idctRaw idctRawL
+  rw [isum32_eq_L _ (fdctL src.toList) i (List.range 64)
+    (fun k hk => forwardDCT_getD' src k (List.mem_range.mp hk))]
+
+/-- the first witness of findings/C18/idct-fdct-error2.txt -/
+def witness1 : List Nat := [
+  0xf4, 0x12, 0xd9, 0x2e, 0xce, 0xf4, 0xa5, 0xdd, 0xc9, 0x97, 0x49, 0x7f, 0x15, 0x1a, 0xc9, 0x97,
+  0x4c, 0x67, 0xe2, 0x5c, 0xbe, 0x81, 0x1f, 0xf3, 0x13, 0x0f, 0x15, 0x45, 0x88, 0xf9, 0xcf, 0x13,
+  0x19, 0x6f, 0x08, 0xd0, 0x41, 0x6a, 0x3c, 0xf7, 0xd1, 0x80, 0xaf, 0xed, 0x02, 0x08, 0x7e, 0x2f,
+  0xc9, 0xab, 0x3a, 0x82, 0xea, 0xea, 0x96, 0xa5, 0x90, 0xec, 0xd1, 0x5d, 0x7e, 0xce, 0x9a, 0x81]
+
+/-- the round-trip error of every pixel of the witness -/
+def witnessErrs : List Int :=
+  (List.range 64).map (fun i =>
+    ((biasAndClamp.toList.getD ((idctRawL witness1 i) % 1024).toNat 0 : Nat) : Int) - witness1.getD i 0)
+
+theorem witness_errs : witnessErrs.getD 35 0 = -2 ∧ witness1.all (fun x => decide (x ≤ 255)) = true ∧
+    witness1.length = 64 := by
+  decide +kernel
+
+
 end WuffsVerif.Jpeg.DctP
